@@ -50,15 +50,16 @@ type ctKind struct {
 
 // InputCase is the replayable E1 case.
 type InputCase struct {
-	Kind     string   `json:"kind"` // "input"
-	CT       ctKind   `json:"ct"`
-	Registry string   `json:"registry"`
-	Status   int      `json:"status"`
-	OpClient bool     `json:"op_client"`
-	OpCtx    bool     `json:"op_ctx"`
-	RtCtx    string   `json:"rt_ctx"` // "set" | "nil"
-	Default  string   `json:"default_media_type"`
-	Headers  []string `json:"-"`
+	Kind                 string   `json:"kind"` // "input"
+	CT                   ctKind   `json:"ct"`
+	Registry             string   `json:"registry"`
+	Status               int      `json:"status"`
+	OpClient             bool     `json:"op_client"`
+	OpClientNilTransport bool     `json:"op_client_nil_transport,omitempty"` // the operation's client has no Transport of its own: http.DefaultTransport carries the request
+	OpCtx                bool     `json:"op_ctx"`
+	RtCtx                string   `json:"rt_ctx"` // "set" | "nil"
+	Default              string   `json:"default_media_type"`
+	Headers              []string `json:"-"`
 }
 
 func ctKinds() []ctKind {
@@ -193,6 +194,10 @@ func checkInput(c InputCase) (class, what string) {
 	}
 	if c.OpClient {
 		op.Client = &http.Client{Transport: oStub}
+		if c.OpClientNilTransport {
+			// a client without Transport means http.DefaultTransport (replaced by defaultStub in main)
+			op.Client = &http.Client{}
+		}
 	}
 	if c.OpCtx {
 		op.Context = context.WithValue(context.Background(), ctxKey("op"), "O")
@@ -210,6 +215,15 @@ func checkInput(c InputCase) (class, what string) {
 	}()
 	if class == "panic" {
 		return class, err.Error()
+	}
+	if c.OpClient && c.OpClientNilTransport {
+		if tStub.seen != nil {
+			return "client-precedence", "the operation's HTTP client (no Transport of its own, i.e. the default transport) was replaced by the transport-wide transport"
+		}
+		if err != nil && strings.Contains(err.Error(), "default transport reached") {
+			return "", "operation client used: request went to the default transport"
+		}
+		return "client-precedence", fmt.Sprintf("request did not go through the operation's HTTP client (default transport): err=%v", err)
 	}
 	// which transport carried the request, with which context
 	used, other := tStub, oStub
@@ -300,6 +314,17 @@ func checkInput(c InputCase) (class, what string) {
 		return "result-changed", fmt.Sprintf("Submit returned %v", res)
 	}
 	return "", "consumer " + seen.consumer
+}
+
+// defaultStub stands in for http.DefaultTransport for the whole process: a request that reaches it
+// was sent by an http.Client that has no Transport of its own.
+type defaultStub struct{}
+
+func (defaultStub) RoundTrip(req *http.Request) (*http.Response, error) {
+	if req.Body != nil {
+		req.Body.Close()
+	}
+	return nil, fmt.Errorf("default transport reached")
 }
 
 func keys(m map[string]bool) []string {
@@ -562,6 +587,7 @@ func racePass() {
 // ---------- main ----------
 
 func main() {
+	http.DefaultTransport = defaultStub{}
 	sched.WorkerMain(exploreScenario)
 	if len(os.Args) > 1 && os.Args[1] == "racepass" {
 		racePass()
@@ -627,6 +653,9 @@ func main() {
 									continue // the default media type only matters when the header is absent
 								}
 								cases = append(cases, InputCase{Kind: "input", CT: ct, Registry: rg, Status: st, OpClient: oc, OpCtx: octx, RtCtx: rctx, Default: d})
+								if oc && st == 200 && d == "" {
+									cases = append(cases, InputCase{Kind: "input", CT: ct, Registry: rg, Status: st, OpClient: true, OpClientNilTransport: true, OpCtx: octx, RtCtx: rctx, Default: d})
+								}
 							}
 						}
 					}
